@@ -117,7 +117,10 @@ def apply_history(n, links, rem0, hist, rev=False):
         m.tasks[j].append_input_task(m.tasks[i])
         wf.initialize()
     else:
-        m = build_wf(n, links, rem0, rev if rev != "loaded" else False)
+        m = build_wf(n, links, rem0, rev if rev not in ("loaded", "loaded-id0") else False)
+        if rev == "loaded-id0":
+            m.tasks[min(1, n - 1)].ID = 0  # an explicit ID that happens to be falsy
+            rev = "loaded"
         wf = m.project.workflow
         wf.initialize()
     t = 0
@@ -156,7 +159,13 @@ def work_hist(chunk):
         key = hash((n, repr(links), rem0, rev))
         while frontier:
             hist = frontier.popleft()
-            m, t, bad = apply_history(n, links, rem0, hist, rev)
+            try:
+                m, t, bad = apply_history(n, links, rem0, hist, rev)
+            except Exception as e:  # the library raised (or did not return: the harness watchdog raises TimeoutError inside the call)
+                col.evaluations += 1
+                col.violation({"property": "C12", "sig": "C12:pert-raised:%s" % type(e).__name__, "kind": "hist", "n": n, "links": links, "rem0": list(rem0), "hist": [list(o) for o in hist], "rev": rev,
+                               "detail": {"error": repr(e)[:300]}})
+                continue
             col.evaluations += 1
             col.checks["c12.compare"] += 1
             c = canon_wf(m, t)
@@ -298,6 +307,7 @@ def hist_items(tier):
                         out.append((n, links, rem0, 2, "prefinished"))
                         out.append((n, links, rem0, 1, "loaded"))
                         out.append((n, links, rem0, 1, "extend-gen"))
+                        out.append((n, links, rem0, 1, "loaded-id0"))
                         out.append((n, links, rem0, 1, "late-append"))
                         for rot in range(len(links)):
                             out.append((n, links[rot:] + links[:rot], rem0, 1, "late-link"))  # every link takes its turn as the one added late
@@ -381,6 +391,12 @@ def run(tier, seed):
 
 
 def replay(v):
+    if v.get("kind") == "hist" and v["sig"].startswith("C12:pert-raised"):
+        try:
+            apply_history(v["n"], [tuple(l) for l in v["links"]], tuple(v["rem0"]), tuple(tuple(o) for o in v["hist"]), v.get("rev"))
+            return []
+        except Exception as e:
+            return [{"sig": "C12:pert-raised:%s" % type(e).__name__, "detail": {"error": repr(e)[:300]}}]
     if v.get("kind") == "hist":
         m, t, bad = apply_history(v["n"], [tuple(l) for l in v["links"]], tuple(v["rem0"]), tuple(tuple(o) for o in v["hist"]), v.get("rev"))
         return [{"sig": sig_of(bad), "detail": {"t": t, "mismatches": bad[:8]}}] if bad else []
